@@ -435,6 +435,9 @@ const prelude = `
 (declare-const inil Iface)
 (assert (= (itag inil) 0))
 (assert (forall ((x Iface)) (! (=> (= (itag x) 0) (= x inil)) :pattern ((itag x)))))
+; identity of the object behind an interface value (the pointer it boxes; 0 for non-pointers)
+(declare-fun irefof (Iface) Int)
+(assert (= (irefof inil) 0))
 ; opaque values of types gocv does not look into
 (declare-sort Opaque 0)
 (declare-const opaque0 Opaque)
